@@ -28,3 +28,12 @@ Definition penta_all_exact : bool :=
 (* data of the non-vacuity examples of Properties.v *)
 Definition ex_B (i l : nat) : Q := inject_Z (Z.of_nat (i + 2 * l)).
 Definition ex_gram (a b : nat) : Q := LinAlgQ.sumn 2 (fun l => ex_B a l * ex_B b l).
+
+(* two structures for two variables: sills A_s A_s^T with A_0 = [[1,0],[1,1]], A_1 = [[2,0],[1,0]] *)
+Definition ex_A (s v l : nat) : Q :=
+  match s, v, l with
+  | O, O, O => 1 | O, S O, O => 1 | O, S O, S O => 1
+  | S O, O, O => 2 | S O, S O, O => 1
+  | _, _, _ => 0
+  end.
+Definition ex_k (s i j : nat) : Q := match s with O => LinAlgQ.delta i j | _ => qpow (1#2) (Nat.max i j - Nat.min i j) end.
